@@ -1,7 +1,7 @@
 (* Properties_C11.v — C11 "regular-expression rewrites accept exactly the same language".
    Only statements closed by [exact]; see Proofs_Regex*.v.  Naming: _partial = holds under the stated guard,
    _refuted = the unguarded statement is false, with a concrete witness. *)
-From GC Require Import Base Model_Regex Model_RegexSimplify Proofs_Regex Proofs_RegexRules Proofs_RegexSimplify Proofs_RegexWalk Proofs_RegexWalkS.
+From GC Require Import Base Model_Regex Model_RegexSimplify Proofs_Regex Proofs_RegexRules Proofs_RegexSimplify Proofs_RegexWalk Proofs_RegexWalkS Model_RegexText Proofs_RegexText.
 
 (* observational equivalence gives the same FindStringSubmatchIndex vector on every subject *)
 Theorem C11_equiv_same_matches : forall a b n, req a b -> forall s, go_vec n (find a s) = go_vec n (find b s).
@@ -270,3 +270,72 @@ Print Assumptions C11_empty_alt_branch_factored_prefix_refuted.
 Example C11_certified_satisfiable : certified doc_example = true /\ simp_text doc_example = "(?:[abc]) {3}[a-z]+".
 Proof. exact (conj doc_example_certified doc_example_text). Qed.
 Print Assumptions C11_certified_satisfiable.
+
+(* ---------- text level: the sub-languages in which the re-lexing defects live (Model_RegexText: the lexer and
+   the class parser of the library the checker uses, tied to the real parser on every class node and every literal
+   concatenation of every generated pattern) ---------- *)
+
+(* tokens -> class items: under the guard "a `-` item that is not last does not follow something that can start a
+   range" (and well-formed items) the items are read back unchanged *)
+Theorem C11_class_items_roundtrip_partial : forall items prev toks,
+  items_ok prev items = true -> items_toks items = Some toks -> parse_items prev toks = (olist prev ++ items)%list.
+Proof. exact parse_items_roundtrip. Qed.
+Print Assumptions C11_class_items_roundtrip_partial.
+
+(* text -> tokens inside a class: guard = no bare `\`, `-`, `]`; a bare `[` is not followed by `:` *)
+Theorem C11_class_lex_roundtrip_partial : forall ts rest fuel,
+  ctoks_ok ts = true -> (String.length (toks_text ts) < fuel)%nat -> lex_body fuel (toks_text ts ++ "]" ++ rest) = Some (ts, rest).
+Proof. exact lex_body_roundtrip. Qed.
+Print Assumptions C11_class_lex_roundtrip_partial.
+
+(* print-then-parse of a whole class node, in any right context *)
+Theorem C11_class_print_parse_partial : forall (neg : bool) v items toks rest,
+  toks <> [] -> items_ok None items = true -> items_toks items = Some toks -> ctoks_ok toks = true ->
+  (neg = false -> first_b (toks_text toks) <> 94%N) ->
+  exists v', parse_class (print (X (if neg then OpNegCharClass else OpCharClass) v items) ++ rest) =
+             Some (X (if neg then OpNegCharClass else OpCharClass) v' items, rest).
+Proof. exact class_print_parse. Qed.
+Print Assumptions C11_class_print_parse_partial.
+
+(* literal runs: guard = a bare `{` is not followed by a digit, a one-digit octal escape is not followed by an octal digit *)
+Theorem C11_literals_lex_roundtrip_partial : forall ts fuel,
+  ltoks_ok ts = true -> (String.length (toks_text ts) < fuel)%nat -> lex_lits fuel (toks_text ts) = Some ts.
+Proof. exact lex_lits_roundtrip. Qed.
+Print Assumptions C11_literals_lex_roundtrip_partial.
+
+Theorem C11_relex_range_enumeration_refuted :
+  items_ok None rl_range_items = false /\
+  items_toks rl_range_items = Some [TChar "a"; TChar "b"; TMinus; TChar "x"] /\
+  parse_items None [TChar "a"; TChar "b"; TMinus; TChar "x"] <> rl_range_items /\
+  option_map fst (parse_class "[ab-x]") = Some t_rng2_after.
+Proof. exact relex_range_enumeration_refuted. Qed.
+Print Assumptions C11_relex_range_enumeration_refuted.
+
+Theorem C11_relex_escape_removal_posix_refuted :
+  ctoks_ok rl_posix_toks = false /\
+  lex_body 20 (toks_text rl_posix_toks ++ "]" ++ "]") <> Some (rl_posix_toks, "]") /\
+  option_map fst (parse_class "[[:alpha:]]") = Some t_esc_posix_after.
+Proof. exact relex_escape_removal_posix_refuted. Qed.
+Print Assumptions C11_relex_escape_removal_posix_refuted.
+
+Theorem C11_relex_escape_removal_repeat_refuted :
+  ltoks_ok rl_repeat_toks = false /\ lex_literals (toks_text rl_repeat_toks) = Some [TChar "a"; TRepeat "{1,2}"].
+Proof. exact relex_escape_removal_repeat_refuted. Qed.
+Print Assumptions C11_relex_escape_removal_repeat_refuted.
+
+Theorem C11_relex_unwrap_repeat_refuted :
+  ltoks_ok rl_unwrap_toks = false /\ lex_literals (toks_text rl_unwrap_toks) = Some [TChar "a"; TRepeat "{2}"].
+Proof. exact relex_unwrap_repeat_refuted. Qed.
+Print Assumptions C11_relex_unwrap_repeat_refuted.
+
+Theorem C11_relex_unwrap_octal_refuted :
+  ltoks_ok rl_octal_toks = false /\ lex_literals (toks_text rl_octal_toks) = Some [TEsc OpEscapeOctal "\01"].
+Proof. exact relex_unwrap_octal_refuted. Qed.
+Print Assumptions C11_relex_unwrap_octal_refuted.
+
+Example C11_text_guards_satisfiable :
+  ltoks_ok [TChar "a"; TChar "{"; TChar "x"; TEsc OpEscapeOctal "\0"; TChar "9"; TEsc OpEscapeMeta "\."; TEsc OpEscapeChar "\d"] = true /\
+  ctoks_ok [TChar "a"; TMinus; TChar "c"; TChar "["; TChar "x"; TPosix "[:alpha:]"; TEsc OpEscapeMeta "\]"; TEsc OpEscapeChar "\d"; TMinus] = true /\
+  items_ok None [X OpCharRange "a-c" [X OpChar "a" []; X OpChar "c" []]; X OpChar "-" []; X OpChar "x" []; X OpChar "-" []] = true.
+Proof. exact text_guards_satisfiable. Qed.
+Print Assumptions C11_text_guards_satisfiable.
